@@ -834,6 +834,15 @@ fn compound_cases(o: &mut Out, seed: u64, tier: &str) {
             ok &= vharness::codec::Bits::bits(&e1) == vharness::codec::Bits::bits(&e2);
             ok &= se2.satisfies_bounds(&a) == cmp.satisfies_bounds(&a.0);
         }
+        for (a, c) in [(SE2State::new(1.0, 2.0, 0.3), SE2State::new(1.0, 2.0, -2.0)), (SE2State::new(1.0, 2.0, 0.3), SE2State::new(-2.0, 0.5, 0.3)),
+                       (SE2State::new(0.0, 0.0, 0.0), SE2State::new(0.0, 0.0, 0.0))] {
+            ok &= se2.distance(&a, &c).to_bits() == cmp.distance(&a.0, &c.0).to_bits();
+            let mut o1 = a.clone();
+            se2.interpolate(&a, &c, 0.5, &mut o1);
+            let mut o2 = a.0.clone();
+            cmp.interpolate(&a.0, &c.0, 0.5, &mut o2);
+            ok &= vharness::codec::Bits::bits(&o1) == vharness::codec::Bits::bits(&o2);
+        }
         ok &= se2.get_longest_valid_segment_length().to_bits() == cmp.get_longest_valid_segment_length().to_bits();
         let mut s1 = StdRng::seed_from_u64(77);
         let mut s2 = StdRng::seed_from_u64(77);
@@ -862,6 +871,29 @@ fn compound_cases(o: &mut Out, seed: u64, tier: &str) {
             cmp3.interpolate(&a.0, &c.0, 0.7, &mut o2);
             ok3 &= vharness::codec::Bits::bits(&o1) == vharness::codec::Bits::bits(&o2);
             ok3 &= se3.satisfies_bounds(&a) == cmp3.satisfies_bounds(&a.0);
+        }
+        {
+            let q1 = SO3State::new(0.0, 0.6, 0.0, 0.8);
+            let q2 = SO3State::new(0.5, 0.5, 0.5, 0.5);
+            for (a, c) in [(SE3State::new(1.0, 1.0, 1.0, q1.clone()), SE3State::new(1.0, 1.0, 1.0, q2.clone())),
+                           (SE3State::new(1.0, 1.0, 1.0, q1.clone()), SE3State::new(0.0, -1.0, 2.0, q1.clone()))] {
+                ok3 &= se3.distance(&a, &c).to_bits() == cmp3.distance(&a.0, &c.0).to_bits();
+                let mut o1 = a.clone();
+                se3.interpolate(&a, &c, 0.25, &mut o1);
+                let mut o2 = a.0.clone();
+                cmp3.interpolate(&a.0, &c.0, 0.25, &mut o2);
+                ok3 &= vharness::codec::Bits::bits(&o1) == vharness::codec::Bits::bits(&o2);
+                let mut e1 = a.clone();
+                se3.enforce_bounds(&mut e1);
+                let mut e2 = a.0.clone();
+                cmp3.enforce_bounds(&mut e2);
+                ok3 &= vharness::codec::Bits::bits(&e1) == vharness::codec::Bits::bits(&e2);
+            }
+            let mut s1 = StdRng::seed_from_u64(78);
+            let mut s2 = StdRng::seed_from_u64(78);
+            let x = se3.sample_uniform(&mut s1).unwrap();
+            let y = cmp3.sample_uniform(&mut s2).unwrap();
+            ok3 &= vharness::codec::Bits::bits(&x) == vharness::codec::Bits::bits(&y);
         }
         ok3 &= se3.get_longest_valid_segment_length().to_bits() == cmp3.get_longest_valid_segment_length().to_bits();
         o.ev(json!({"ev": "sp", "sp": "se3", "op": "equals-compound", "w": w, "ok": ok3}));
